@@ -489,14 +489,17 @@ class GroupBuild:
         acc = self.acc
         chain = ([el] if el.tag == P + "grpSp" else []) + list(el.iterancestors(P + "grpSp"))
         for level, g in enumerate(chain):
-            want = bbox([read_xfrm(xfrm_of(m))[:4] for m in members(g)])
+            boxed = [m for m in members(g) if xfrm_of(m) is not None and xfrm_of(m).find(A + "off") is not None and xfrm_of(m).find(A + "ext") is not None]
+            if not boxed:
+                continue
+            want = bbox([read_xfrm(xfrm_of(m))[:4] for m in boxed])  # (a member without a:xfrm has no box of its own to contribute)
             xf = xfrm_of(g)
             got = read_xfrm(xf)[:4]
             choff, chext = xf.find(A + "chOff"), xf.find(A + "chExt")
             ch = None if choff is None or chext is None else (int(choff.get("x")), int(choff.get("y")), int(chext.get("cx")), int(chext.get("cy")))
             pr = self.proxy[g]
             api = (int(pr.left), int(pr.top), int(pr.width), int(pr.height))
-            api_want = bbox([(int(m.left), int(m.top), int(m.width), int(m.height)) for m in pr.shapes])
+            api_want = bbox([(int(m.left), int(m.top), int(m.width), int(m.height)) for m in pr.shapes if None not in (m.left, m.top, m.width, m.height)])
             key = "group-extents-stale:freeform" if kind == "freeform" else "group-extents:%s%s" % (kind, ":ancestor" if level else "")
             where = "group %d level(s) above the %s just added" % (level + (el.tag != P + "grpSp"), kind)
             if got != want or api != api_want:
@@ -558,8 +561,26 @@ def gen_op(b, r):
     return op
 
 
+class _Stop(Exception):
+    """the build cannot go on after a raising addition"""
+
+
 def group_step(b, op, step, tag):
-    el, kind = b.apply(op)
+    if step % 9 == 4 and b.groups:
+        # pre-state for the next addition: a member of some group loses its a:xfrm (schema-valid: the element is optional; a
+        # shape that inherits its place, a nested group written as <p:grpSpPr/>) - additions must still work and the box is
+        # that of the members that have one
+        g = b.groups[step % len(b.groups)]._element
+        ms = [m for m in members(g) if xfrm_of(m) is not None and m.tag != P + "graphicFrame"]
+        if len(ms) >= 2:
+            xf = xfrm_of(ms[step % len(ms)])
+            xf.getparent().remove(xf)
+            CALLS["members_stripped_of_their_xfrm"] += 1
+    try:
+        el, kind = b.apply(op)
+    except Exception as e:  # noqa  ("after any additions": an addition to a valid group that raises is no addition)
+        b.acc.violation("group-addition-raises:%s" % type(e).__name__, "adding %s raised %s: %s" % (op["op"], type(e).__name__, str(e)[:120]), b.witness())
+        raise _Stop()
     if el is None:
         CALLS["empty_subgroup_additions_not_checked"] += 1
         return
@@ -575,8 +596,11 @@ def group_random(unit, acc):
     for n in range(unit["n"]):
         r = env.rng("C17", "group", unit["shard"], n)
         b = GroupBuild(acc)
-        for step in range(unit["steps"]):
-            group_step(b, gen_op(b, r), step, [unit["shard"], n])
+        try:
+            for step in range(unit["steps"]):
+                group_step(b, gen_op(b, r), step, [unit["shard"], n])
+        except _Stop:
+            acc.count("group_builds_stopped_by_a_raising_addition")
         acc.count("group_builds")
         acc.count("group_builds_reaching_depth_4", any(b.depth(i) == 4 for i in range(len(b.groups))))
 
@@ -648,7 +672,10 @@ def replay(w, acc):
     elif part == "group":
         b = GroupBuild(acc)
         for step, op in enumerate(w["ops"]):
-            group_step(b, op, step, "replay")
+            try:
+                group_step(b, op, step, "replay")
+            except _Stop:
+                break
             print("step %d %s -> groups %s" % (step, {k: v for k, v in op.items() if k != "pen"}, [read_xfrm(xfrm_of(g._element))[:4] for g in b.groups]))
     elif part == "freeform":
         prs, slide = new_slide()
